@@ -4,15 +4,23 @@ import Logrange.Model.TIndexLts
 
 Labels (actor `a`, source index `s` = creation order, tag-line id `t`; answers in brackets):
 * `reset`                                   [ok]
-* `goc a t create`                          [ok <s> | wait | notfound]      getOrCreateJournal / GetJournal, one loop iteration
-* `gt a s lock`                             [ok | wait | notfound]          GetJournalTags, one loop iteration
+* `shutdown`                                [ok]       Shutdown(): sets `done`
+* `goc a t create`                          [ok <s> | wait | notfound | down]      getOrCreateJournal / GetJournal, one loop iteration
+                                            (`down` = after shutdown: the error "already shut-down.", nothing changes)
+* `gt a s lock`                             [ok | wait | notfound | down]          GetJournalTags, one loop iteration
 * `rel a s`                                 [ok | panic | disabled]         Release
 * `lock a s`                                [true | false | disabled]       LockExclusively
 * `unlock a s`                              [ok | panic | disabled]         UnlockExclusively
 * `del a s`                                 [ok | notfound | wrongstate | disabled]   Delete
-* `vbegin a skipping noRelease t*`          [ok <n>]   first locked section of Visit; n = size of the snapshot
-* `vtry a s`                                [acq | gone | wait | disabled]  waiting flavour, per-item section
-* `vwait a`                                 [wait | nowait]   is some pending entry of a's waiting visit exclusively locked?
+* `vbegin a skipping noRelease t*`          [ok <n> | down | disabled]   first locked section of Visit; n = size of the snapshot;
+                                            `down` = after shutdown: Visit returns the error, no visit starts
+* `vtry a s`                                [acq | gone | wait | down | disabled]  waiting flavour, per-item section; `down` = after
+                                            shutdown the section ends the visit at once, without its final section
+* `vwait a`                                 [wait | nowait | down]   is some pending entry of a's waiting visit exclusively locked?
+                                            (`down` = after shutdown, a has a waiting visit: it would not wait but end)
+* `vdown a`                                 [down | disabled]  after shutdown: the next per-item section of a's waiting visit
+                                            (not aborted, no callback running, something pending) ends it: `visitTry a s` for the
+                                            first pending s (the effect does not depend on s); what it owes stays acquired
 * `vdrain a`                                [ok | live <s>]   the remaining pending entries are all gone (each `vtry` = gone)
 * `vcb a s cont`                            [ok | disabled]   the callback on s returns cont
 * `vend a`                                  [ok | disabled]   final locked section
@@ -43,8 +51,10 @@ def stepLine (st : St) (toks : List String) : St × String :=
   match toks with
   | ["reset"] => (init, "ok")
   | ["state"] => (st, stateStr st)
+  | ["shutdown"] => apply st .shutdown (fun _ => "ok")
   | ["goc", a, t, cr] =>
     let a := a.toNat!; let t := t.toNat!
+    if st.done then apply st (.getOrCreate a t (b01 cr)) (fun _ => "down") else
     (match findTags st.c.parts t st.c.next with
      | some s =>
        (match st.c.parts s with
@@ -56,6 +66,7 @@ def stepLine (st : St) (toks : List String) : St × String :=
        else apply st (.getOrCreate a t false) (fun _ => "notfound"))
   | ["gt", a, s, lk] =>
     let a := a.toNat!; let s := s.toNat!
+    if st.done then apply st (.getTags a s (b01 lk)) (fun _ => "down") else
     (match st.c.parts s with
      | none => apply st (.getTags a s (b01 lk)) (fun _ => "notfound")
      | some p => apply st (.getTags a s (b01 lk)) (fun _ => if p.exclusive then "wait" else "ok"))
@@ -78,12 +89,14 @@ def stepLine (st : St) (toks : List String) : St × String :=
       | some _, some _ => "wrongstate")
   | "vbegin" :: a :: sk :: nr :: sel =>
     let a := a.toNat!
+    if st.done then apply st (.visitBegin a (sel.map String.toNat!) (b01 sk) (b01 nr)) (fun _ => "down") else
     apply st (.visitBegin a (sel.map String.toNat!) (b01 sk) (b01 nr)) (fun st' =>
       match st'.vis a with
       | some v => s!"ok {v.pending.length}"
       | none => "ok ?")
   | ["vtry", a, s] =>
     let a := a.toNat!; let s := s.toNat!
+    if st.done then apply st (.visitTry a s) (fun _ => "down") else
     apply st (.visitTry a s) (fun st' =>
       match st.c.parts s with
       | none => "gone"
@@ -91,9 +104,20 @@ def stepLine (st : St) (toks : List String) : St × String :=
         match st'.vis a with
         | some v => if v.cur == some s then "acq" else "bad"
         | none => "bad")
+  | ["vdown", a] =>
+    let a := a.toNat!
+    (match st.vis a with
+     | some v =>
+       if st.done && !v.skipping && !v.aborted && v.cur.isNone then
+         (match v.pending with
+          | s :: _ => apply st (.visitTry a s) (fun _ => "down")
+          | [] => (st, "disabled"))
+       else (st, "disabled")
+     | none => (st, "disabled"))
   | ["vwait", a] =>
     (match st.vis a.toNat! with
      | some v =>
+       if st.done && !v.skipping then (st, "down") else
        if !v.skipping && !v.aborted && v.cur.isNone &&
           v.pending.any (fun s => match st.c.parts s with | some p => p.exclusive | none => false)
        then (st, "wait") else (st, "nowait")
